@@ -115,6 +115,16 @@ package errutil
 //@   ensures result != nil
 //@   ensures[C16] $cap == lvl - 1
 
+// C12: every error-typed operand of the format is attached as a secondary error (its safe details,
+// telemetry keys and stack travel with the result), whatever it looks like
+//@ spec func isErrArg(a any) bool = hasMethod(typeof(a), "Error() string")
+//@ spec func errCnt(args []any, n int) int
+//@ unfold errCnt(args, n) = n <= 0 ? 0 : errCnt(args, n - 1) + (isErrArg(args[n - 1]) ? 1 : 0)
+// (by induction on n; stated as an axiom because the solvers do not do induction)
+//@ axiom errCnt_nonneg: forall args []any, n int :: {errCnt(args, n)} errCnt(args, n) >= 0
+//@ spec func secHas(e error, x error) bool
+//@ unfold secHas(e, x) = e != nil && ((typeis(e, *secondary.withSecondaryError) && e.(*secondary.withSecondaryError).secondaryError == x) || secHas(cause1(e), x))
+
 //@ func NewWithDepthf
 //@   props C10 C16 C03 C07
 //@   requires[C03] safeS(format)
@@ -146,16 +156,6 @@ package errutil
 //@   ensures err == nil ==> result == nil
 //@   ensures err != nil ==> result != nil
 //@   ensures[C16] err != nil ==> $cap == lvl - 1
-
-// C12: every error-typed operand of the format is attached as a secondary error (its safe details,
-// telemetry keys and stack travel with the result), whatever it looks like
-//@ spec func isErrArg(a any) bool = hasMethod(typeof(a), "Error() string")
-//@ spec func errCnt(args []any, n int) int
-//@ unfold errCnt(args, n) = n <= 0 ? 0 : errCnt(args, n - 1) + (isErrArg(args[n - 1]) ? 1 : 0)
-// (by induction on n; stated as an axiom because the solvers do not do induction)
-//@ axiom errCnt_nonneg: forall args []any, n int :: {errCnt(args, n)} errCnt(args, n) >= 0
-//@ spec func secHas(e error, x error) bool
-//@ unfold secHas(e, x) = e != nil && ((typeis(e, *secondary.withSecondaryError) && e.(*secondary.withSecondaryError).secondaryError == x) || secHas(cause1(e), x))
 
 //@ func WrapWithDepthf
 //@   props C10 C16 C12
